@@ -1,5 +1,6 @@
 import PermutaModel.Lemmas.C08Hash
 import PermutaModel.Lemmas.PySort
+import PermutaModel.Lemmas.C08BasisOrder
 import Mathlib.Data.List.Sort
 
 /-!
@@ -476,5 +477,133 @@ theorem sortedObjs_meshes (l : List MObj) (hl : ∀ m ∈ l, IsMeshCls m.cls) :
 example : pySort (fun x y => cmp .lt (.atom (.mesh x)) (.atom (.mesh y)))
       [⟨.MeshPatt, [0,1], []⟩, ⟨.BivincularPatt, [0,1], [(1,0),(1,1),(1,2)]⟩] =
     .ok [⟨.MeshPatt, [0,1], []⟩, ⟨.BivincularPatt, [0,1], [(1,0),(1,1),(1,2)]⟩] := by decide
+
+/-! ## A6 the order on `Basis` and `MeshBasis` objects (inherited tuple comparison) -/
+
+/-- the six operators on two `Basis` objects: lexicographic comparison of the element tuples
+    (`tupSpec`/`listLex`) by the permutations' own order `permLt` and tuple equality -/
+theorem basis_cmp (m : DMeth) (xs ys : List NSeq) :
+    cmp m (.basis xs) (.basis ys) = .ok (tupSpec permLt m xs ys) := cmp_basis m xs ys
+
+/-- `B < B'` spelled out with the elements' own `<`: after a common prefix the left basis has a
+    smaller permutation (`Perm.__lt__`), or the left tuple is a proper prefix of the right one -/
+theorem basis_lt_iff (xs ys : List NSeq) :
+    cmp .lt (.basis xs) (.basis ys) = .ok true ↔
+      (∃ p a b s t, xs = p ++ a :: s ∧ ys = p ++ b :: t ∧ a ≠ b ∧
+        cmp .lt (.atom (.perm a)) (.atom (.perm b)) = .ok true) ∨
+      (∃ b t, ys = xs ++ b :: t) := by
+  simp only [basis_cmp, perm_cmp, permCmpSpec, tupSpec, Except.ok.injEq]
+  exact listLex_iff permLt xs ys
+
+/-- `<` on `Basis` objects is a strict total order consistent with `==`: irreflexive, transitive,
+    exactly one of `x < y`, `x == y`, `y < x`; `<=` is `<` or `==`; `>`/`>=` are the mirror images -/
+theorem basis_order_strict_total (x y z : List NSeq) :
+    cmp .lt (.basis x) (.basis x) = .ok false ∧
+    (cmp .lt (.basis x) (.basis y) = .ok true → cmp .lt (.basis y) (.basis z) = .ok true →
+      cmp .lt (.basis x) (.basis z) = .ok true) ∧
+    (cmp .lt (.basis x) (.basis y) = .ok true ∨ cmp .eq (.basis x) (.basis y) = .ok true ∨
+      cmp .lt (.basis y) (.basis x) = .ok true) ∧
+    (cmp .lt (.basis x) (.basis y) = .ok true → cmp .lt (.basis y) (.basis x) = .ok false ∧
+      cmp .eq (.basis x) (.basis y) = .ok false) ∧
+    (cmp .le (.basis x) (.basis y) = .ok true ↔
+      cmp .lt (.basis x) (.basis y) = .ok true ∨ cmp .eq (.basis x) (.basis y) = .ok true) ∧
+    cmp .gt (.basis x) (.basis y) = cmp .lt (.basis y) (.basis x) ∧
+    cmp .ge (.basis x) (.basis y) = cmp .le (.basis y) (.basis x) := by
+  simp only [basis_cmp, Except.ok.injEq]
+  exact tupSpec_laws permLt_strictTotal x y z
+
+example : cmp .lt (.basis [[0, 1], [1, 0, 2]]) (.basis [[0, 1], [2, 0, 1]]) = .ok true ∧
+    cmp .lt (.basis [[0, 1]]) (.basis [[0, 1], [0]]) = .ok true ∧
+    cmp .ge (.basis [[0, 1, 2]]) (.basis [[1, 0], [0]]) = .ok true := by decide
+
+/-- the six operators on two `MeshBasis` objects of mesh-type patterns (of any of the four classes):
+    lexicographic comparison of the tuples of keys `(pattern, sorted shading)` by the mesh patterns' own
+    order (`keyLt (mkey a) (mkey b) = meshKeyLt a b`, the order of `mesh_order_total`) -/
+theorem mbasis_cmp (m : DMeth) (xs ys : List MObj) (hx : Obj.WF (.mbasis xs)) (hy : Obj.WF (.mbasis ys)) :
+    cmp m (.mbasis xs) (.mbasis ys) = .ok (tupSpec keyLt m (xs.map mkey) (ys.map mkey)) :=
+  cmp_mbasis m xs ys hx hy
+
+/-- `<` on `MeshBasis` objects is a strict total order consistent with `==` (same seven laws) -/
+theorem mbasis_order_strict_total (x y z : List MObj) (hx : Obj.WF (.mbasis x)) (hy : Obj.WF (.mbasis y))
+    (hz : Obj.WF (.mbasis z)) :
+    cmp .lt (.mbasis x) (.mbasis x) = .ok false ∧
+    (cmp .lt (.mbasis x) (.mbasis y) = .ok true → cmp .lt (.mbasis y) (.mbasis z) = .ok true →
+      cmp .lt (.mbasis x) (.mbasis z) = .ok true) ∧
+    (cmp .lt (.mbasis x) (.mbasis y) = .ok true ∨ cmp .eq (.mbasis x) (.mbasis y) = .ok true ∨
+      cmp .lt (.mbasis y) (.mbasis x) = .ok true) ∧
+    (cmp .lt (.mbasis x) (.mbasis y) = .ok true → cmp .lt (.mbasis y) (.mbasis x) = .ok false ∧
+      cmp .eq (.mbasis x) (.mbasis y) = .ok false) ∧
+    (cmp .le (.mbasis x) (.mbasis y) = .ok true ↔
+      cmp .lt (.mbasis x) (.mbasis y) = .ok true ∨ cmp .eq (.mbasis x) (.mbasis y) = .ok true) ∧
+    cmp .gt (.mbasis x) (.mbasis y) = cmp .lt (.mbasis y) (.mbasis x) ∧
+    cmp .ge (.mbasis x) (.mbasis y) = cmp .le (.mbasis y) (.mbasis x) := by
+  simp only [mbasis_cmp _ _ _ hx hx, mbasis_cmp _ _ _ hx hy, mbasis_cmp _ _ _ hy hx, mbasis_cmp _ _ _ hy hz,
+    mbasis_cmp _ _ _ hx hz, Except.ok.injEq]
+  exact tupSpec_laws keyLt_strictTotal _ _ _
+
+/-- `M < M'` spelled out with the elements' own `==`/`<`: after prefixes that are element-wise `==`
+    the left basis has a `<`-smaller mesh pattern, or the left tuple is (element-wise `==` to) a proper
+    prefix of the right one -/
+theorem mbasis_lt_iff (xs ys : List MObj) (hx : Obj.WF (.mbasis xs)) (hy : Obj.WF (.mbasis ys)) :
+    cmp .lt (.mbasis xs) (.mbasis ys) = .ok true ↔
+      (∃ p a s p' b t, xs = p ++ a :: s ∧ ys = p' ++ b :: t ∧
+        cmp .eq (.mbasis p) (.mbasis p') = .ok true ∧
+        cmp .lt (.atom (.mesh a)) (.atom (.mesh b)) = .ok true) ∨
+      (∃ p' b t, ys = p' ++ b :: t ∧ cmp .eq (.mbasis xs) (.mbasis p') = .ok true) := by
+  rw [mbasis_cmp _ _ _ hx hy]
+  simp only [tupSpec, Except.ok.injEq, listLex_iff]
+  have hsub : ∀ {l p a s : List MObj} {a' : MObj}, l = p ++ a' :: s → Obj.WF (.mbasis l) →
+      Obj.WF (.mbasis p) ∧ IsMeshCls a'.cls := by
+    intro l p a s a' e h
+    subst e
+    exact ⟨fun m hm => h m (List.mem_append_left _ hm), h a' (by simp)⟩
+  constructor
+  · rintro (⟨kp, ka, kb, ks, kt, h1, h2, hne, hlt⟩ | ⟨kb, kt, h⟩)
+    · obtain ⟨p, r, rfl, hp, hr⟩ := List.map_eq_append_iff.mp h1
+      obtain ⟨a, s, rfl, ha, hs⟩ := List.map_eq_cons_iff.mp hr
+      obtain ⟨p', r', rfl, hp', hr'⟩ := List.map_eq_append_iff.mp h2
+      obtain ⟨b, t, rfl, hb, ht⟩ := List.map_eq_cons_iff.mp hr'
+      have wx := hsub (a := []) rfl hx
+      have wy := hsub (a := []) rfl hy
+      refine Or.inl ⟨p, a, s, p', b, t, rfl, rfl, ?_, ?_⟩
+      · rw [mbasis_cmp _ _ _ wx.1 wy.1]; simp [tupSpec, hp, hp']
+      · rw [(mesh_order_total a b wx.2 wy.2).1, meshKeyLt_eq_keyLt, ha, hb, hlt]
+    · obtain ⟨p', r', rfl, hp', hr'⟩ := List.map_eq_append_iff.mp h
+      obtain ⟨b, t, rfl, hb, ht⟩ := List.map_eq_cons_iff.mp hr'
+      have wy := hsub (a := []) rfl hy
+      refine Or.inr ⟨p', b, t, rfl, ?_⟩
+      rw [mbasis_cmp _ _ _ hx wy.1]; simp [tupSpec, hp']
+  · rintro (⟨p, a, s, p', b, t, rfl, rfl, he, hlt⟩ | ⟨p', b, t, rfl, he⟩)
+    · have wx := hsub (a := []) rfl hx
+      have wy := hsub (a := []) rfl hy
+      rw [mbasis_cmp _ _ _ wx.1 wy.1] at he
+      rw [(mesh_order_total a b wx.2 wy.2).1, meshKeyLt_eq_keyLt] at hlt
+      simp only [tupSpec, Except.ok.injEq, beq_iff_eq] at he hlt
+      refine Or.inl ⟨p.map mkey, mkey a, mkey b, s.map mkey, t.map mkey, by simp, by simp [he], ?_, hlt⟩
+      intro e
+      rw [e, keyLt_strictTotal.irrefl] at hlt
+      exact absurd hlt (by decide)
+    · have wy := hsub (a := []) rfl hy
+      rw [mbasis_cmp _ _ _ hx wy.1] at he
+      simp only [tupSpec, Except.ok.injEq, beq_iff_eq] at he
+      exact Or.inr ⟨mkey b, t.map mkey, by simp [he]⟩
+
+example : cmp .lt (.mbasis [⟨.MeshPatt, [0, 1], [(1, 1)]⟩, ⟨.VincularPatt, [0], [(0, 0), (0, 1)]⟩])
+      (.mbasis [⟨.BivincularPatt, [0, 1], [(1, 1)]⟩, ⟨.MeshPatt, [0], [(0, 1)]⟩]) = .ok true ∧
+    cmp .le (.mbasis [⟨.MeshPatt, [0], []⟩]) (.mbasis [⟨.CovincularPatt, [0], []⟩]) = .ok true ∧
+    cmp .gt (.mbasis [⟨.MeshPatt, [0], []⟩]) (.mbasis []) = .ok true := by decide
+
+/-- a `Basis` against a `MeshBasis` under an order operator (either operand order): the first items are
+    never `==` and a permutation is not ordered against a mesh pattern, so it is `TypeError` unless one
+    of the two tuples is empty, in which case the lengths decide (`crossSpec`) -/
+theorem basis_mbasis_order (m : DMeth) (hm : m ≠ .eq ∧ m ≠ .ne) (xs : List NSeq) (ys : List MObj)
+    (hy : Obj.WF (.mbasis ys)) :
+    cmp m (.basis xs) (.mbasis ys) = crossSpec m xs.isEmpty ys.isEmpty ∧
+    cmp m (.mbasis ys) (.basis xs) = crossSpec m ys.isEmpty xs.isEmpty :=
+  cmp_basis_mbasis_order m hm xs ys hy
+
+example : cmp .lt (.basis [[0]]) (.mbasis [⟨.MeshPatt, [0], []⟩]) = .error .typeError ∧
+    cmp .lt (.basis []) (.mbasis [⟨.MeshPatt, [0], []⟩]) = .ok true ∧
+    cmp .le (.mbasis []) (.basis []) = .ok true := by decide
 
 end C08
